@@ -55,6 +55,8 @@ pub fn spin_and_get_forwarded_object<VM: VMBinding>(
 ) -> ObjectReference {
     let mut forwarding_bits = forwarding_bits;
     while forwarding_bits == BEING_FORWARDED {
+        #[cfg(feature = "verif")]
+        crate::util::verif::rt::yield_point(object.to_raw_address().as_usize());
         forwarding_bits = get_forwarding_status::<VM>(object);
     }
 
